@@ -258,7 +258,9 @@ def tx_case(spec, res):
     code = {"DISCONNECTED": 0, "CONNECTED": 1, "CLOSED": 2}
     log = clist(ctuple(f"{i}%nat", f"{w}%nat", cbytes(bytes.fromhex(h))) for w, i, h in res["bytelog"])
     trace = clist(cz(code[e[1]]) for e in body if e[0] == "status")
-    pend = sum(1 for e in body if e[0] == "connect_call")
+    # connect tasks created by send() fault handlers (the model's reconnect trigger); a connect() that re-arms
+    # itself because a fault was reported while it was finishing (fix ec78efa) belongs to C13's model, not to this one
+    pend = sum(1 for e in body if e[0] == "connect_call" and len(e) > 1 and str(e[1]).startswith("send"))
     f = res["final"]
     connected = not spec.get("no_connect")
     ini = ctuple(cz(1 if connected else 0), cbool(connected), cbool(scb != "none"))
